@@ -2,5 +2,5 @@ SPECIFICATION Spec
 CONSTANTS
   Mode = "f32"
   Tier = "quick"
-INVARIANTS ToyLaws Laws32 EmitInv
+INVARIANTS ToyLaws Toy3Laws Laws32 EmitInv
 CHECK_DEADLOCK FALSE
